@@ -14,7 +14,7 @@ func init() {
 	replayers["C03"] = replayC03
 }
 
-var profCorpus = profile{name: "per-pattern alphabet (first 3 letters/digits of the pattern, other case, blank, newline, é)"}
+var profCorpus = profile{name: "per-pattern inputs (short strings over the pattern's letters + witness neighbourhood, lang.go)"}
 
 func accelFamilies(thorough bool) (jobs []job) {
 	core4 := coreFamily("CORE", grammarCore(), 4)
@@ -46,6 +46,10 @@ func accelFamilies(thorough bool) (jobs []job) {
 	add("ALTB", altB, "", profP0, 4)
 	add("ALTB", altB, "G", profP0, 4)
 	add("ALTB", altB, "i", profP0i, 3)
+	bump := bumpFamily()
+	add("BUMP", bump, "", profP0, 5)
+	add("BUMP", bump, "G", profP0, 4)
+	add("BUMP", bump, "m", profP6, 4)
 	add("SEQ k<=3", seq3, "", profP0, 4)
 	add("LOOP", loopF, "", profP0, 4)
 	add("LOOK", lookF, "", profP0, 4)
@@ -60,6 +64,10 @@ func accelFamilies(thorough bool) (jobs []job) {
 	}
 	add("CORPUS", corpus, "", profCorpus, 3)
 	add("CORPUS", corpus, "G", profCorpus, 3)
+	lim := limFamily()
+	for _, o := range []optSet{"", "G", "i", "R"} {
+		add("LIM", lim, o, profCorpus, 2)
+	}
 	if thorough {
 		add("SEQ k<=3", seq3, "G", profP0, 4)
 		add("LOOK", lookF, "G", profP0, 4)
